@@ -8,7 +8,6 @@ import (
 	"fmt"
 	"regexp"
 	"strconv"
-	"strings"
 	"time"
 
 	"github.com/JunNishimura/Goit/internal/log"
@@ -21,7 +20,7 @@ var (
 	isSoft      bool
 	isMixed     bool
 	isHard      bool
-	resetRegexp = regexp.MustCompile(`HEAD@\{\d\}`)
+	resetRegexp = regexp.MustCompile(`^HEAD@\{(\d+)\}$`)
 )
 
 func resetHead(arg, rootGoitPath string, logRecord *store.LogRecord, head *store.Head, refs *store.Refs, conf *store.Config) error {
@@ -98,8 +97,7 @@ var resetCmd = &cobra.Command{
 		if err != nil {
 			return fmt.Errorf("fail to initialize reflog: %w", err)
 		}
-		sp := strings.Split(args[0], "HEAD@")[1]
-		headNum, err := strconv.Atoi(sp[1 : len(sp)-1])
+		headNum, err := strconv.Atoi(resetRegexp.FindStringSubmatch(args[0])[1])
 		if err != nil {
 			return fmt.Errorf("fail to convert number '%s': %w", args[0], err)
 		}
